@@ -93,3 +93,80 @@ pub fn pool(args: &[&str]) -> Option<Vec<String>> {
     let units: Vec<String> = recs.iter().map(|r| hex_list(&r.units)).collect();
     Some(vec![results.join(";"), if units.is_empty() { "none".into() } else { units.join("|") }])
 }
+
+
+/// `wstall <client s|a> <T ms> <MiB>`: the peer answers up to `354` and then stops reading; the client sends a message too
+/// big for the socket buffers, so it blocks in a *write*. Reports result kind, whether the error says it is a timeout,
+/// and the elapsed time (`HANG` if still blocked after 10 T + 3 s).
+pub fn wstall(args: &[&str]) -> Option<Vec<String>> {
+    use std::io::{BufRead, BufReader, Write};
+    let client = *args.first()?;
+    let t_ms: u64 = args.get(1)?.parse().ok()?;
+    let mib: usize = args.get(2)?.parse().ok()?;
+    let listener = std::net::TcpListener::bind("127.0.0.1:0").ok()?;
+    let port = listener.local_addr().ok()?.port();
+    let stop = Arc::new(AtomicBool::new(false));
+    let stop2 = stop.clone();
+    let server = std::thread::spawn(move || {
+        let Ok((s, _)) = listener.accept() else { return };
+        let mut w = s.try_clone().unwrap();
+        let mut r = BufReader::new(s);
+        let _ = w.write_all(b"220 peer\r\n");
+        loop {
+            let mut line = String::new();
+            if r.read_line(&mut line).unwrap_or(0) == 0 {
+                return;
+            }
+            if line.starts_with("EHLO") {
+                let _ = w.write_all(b"250-peer\r\n250 8BITMIME\r\n");
+            } else if line.starts_with("DATA") {
+                let _ = w.write_all(b"354 go\r\n");
+                break;
+            } else {
+                let _ = w.write_all(b"250 ok\r\n");
+            }
+        }
+        // stop reading, keep the socket open
+        while !stop2.load(Ordering::SeqCst) {
+            std::thread::sleep(Duration::from_millis(5));
+        }
+    });
+    let timeout = Duration::from_millis(t_ms);
+    let cap = timeout * 10 + Duration::from_secs(3);
+    let envelope = lettre::address::Envelope::new(Some("a@b.c".parse().ok()?), vec!["x@y.z".parse().ok()?]).ok()?;
+    let msg: Vec<u8> = b"0123456789abcdef0123456789abcdef0123456789abcdef0123456789abcd\r\n".iter().cycle().take(mib << 20).copied().collect();
+    let hello = ClientId::Domain("c.example".into());
+    let t0 = Instant::now();
+    let out = match client {
+        "s" => {
+            let (tx, rx) = std::sync::mpsc::channel();
+            std::thread::spawn(move || {
+                let t = SmtpTransport::builder_dangerous("127.0.0.1").port(port).hello_name(hello).timeout(Some(timeout)).build();
+                let r = t.send_raw(&envelope, &msg);
+                let _ = tx.send(format!("{}@{}", describe(&r), is_timeout(&r)));
+            });
+            match rx.recv_timeout(cap) {
+                Ok(s) => s,
+                Err(_) => "HANG@-".into(),
+            }
+        }
+        "a" => {
+            let rt = tokio::runtime::Builder::new_multi_thread().worker_threads(2).enable_all().build().ok()?;
+            let s = rt.block_on(async {
+                let t: AsyncSmtpTransport<Tokio1Executor> =
+                    AsyncSmtpTransport::<Tokio1Executor>::builder_dangerous("127.0.0.1").port(port).hello_name(hello).timeout(Some(timeout)).build();
+                match tokio::time::timeout(cap, t.send_raw(&envelope, &msg)).await {
+                    Ok(r) => format!("{}@{}", describe(&r), is_timeout(&r)),
+                    Err(_) => "HANG@-".into(),
+                }
+            });
+            rt.shutdown_background();
+            s
+        }
+        _ => return None,
+    };
+    let elapsed = t0.elapsed().as_millis();
+    stop.store(true, Ordering::SeqCst);
+    let _ = server.join();
+    Some(vec![format!("{out}@{elapsed}")])
+}
